@@ -332,6 +332,179 @@ def generate(repo):
                 f"{t}.\n", {'test': U(last.test)})
     out.item('put_gave_up_test', put_gave_up)
 
+    # ------------------------------------------------- ThreadManager
+    def tm_fn(name):
+        return find_def(s_tree, f'ThreadManager.{name}')
+
+    def running_value(fname, dname):
+        def go():
+            f = tm_fn(fname)
+            asg = [n for n in ast.walk(f) if isinstance(n, ast.Assign)
+                   and len(n.targets) == 1
+                   and U(n.targets[0]) == 'self.running']
+            a = one(asg, f"ThreadManager.{fname}: assignment to "
+                    "self.running", f)
+            need(isinstance(a.value, ast.Constant) and
+                 isinstance(a.value.value, bool),
+                 f"ThreadManager.{fname}: self.running is not set to a "
+                 f"boolean constant: {U(a)}", a)
+            v = 'true' if a.value.value else 'false'
+            return (f"(* ThreadManager.{fname}: {U(a)} *)\n"
+                    f"Definition {dname} : bool := {v}.\n", {'stmt': U(a)})
+        return go
+    out.item('tm_init_running', running_value('__init__', 'tm_init_running'))
+    out.item('tm_start_running', running_value('start', 'tm_start_running'))
+    out.item('tm_stop_running', running_value('stop', 'tm_stop_running'))
+
+    def tm_stop_test():
+        f = tm_fn('stop')
+        i = one([n for n in strip(f.body)], "ThreadManager.stop: body is "
+                "one `if`", f)
+        need(isinstance(i, ast.If) and not strip(i.orelse),
+             "ThreadManager.stop: not a lone `if` without else", i)
+        tr = Tr(subst={'self.running': ('running', 'bool', ['running'])})
+        t, ty = tr.expr(i.test)
+        need(ty == 'bool', "ThreadManager.stop: test not boolean", i)
+        return (f"(* ThreadManager.stop: if {U(i.test)}: *)\n"
+                f"Definition tm_stop_test (running : bool) : bool := {t}.\n",
+                {'test': U(i.test)})
+    out.item('tm_stop_test', tm_stop_test)
+
+    def tm_thread():
+        f = tm_fn('__init__')
+        params = [a.arg for a in f.args.args]
+        need(params == ['self', 'name', 'func', 'args'],
+             f"ThreadManager.__init__ parameters are {params}", f)
+        ev = [n for n in ast.walk(f) if isinstance(n, ast.Assign)
+              and U(n.targets[0]) == 'self.event']
+        e = one(ev, "ThreadManager.__init__: self.event assignment", f)
+        need(U(e.value) == 'threading.Event()',
+             f"self.event is not a fresh threading.Event(): {U(e)}", e)
+        th = [n for n in ast.walk(f) if isinstance(n, ast.Assign)
+              and U(n.targets[0]) == 'self.thread']
+        t = one(th, "ThreadManager.__init__: self.thread assignment", f)
+        c = t.value
+        need(isinstance(c, ast.Call) and U(c.func) == 'threading.Thread'
+             and not c.args, "self.thread is not threading.Thread(..)", t)
+        kw = {k.arg: U(k.value) for k in c.keywords}
+        need(kw.get('target') == 'func' and
+             kw.get('args') == '[self.event, *args]',
+             f"thread is not Thread(target=func, args=[self.event, *args]): "
+             f"{U(c)}", t)
+        return (f"(* {U(t)} *)\n"
+                "Definition tm_thread_runs_func_with_own_event : bool := "
+                "true.\n", {'stmt': U(t)})
+    out.item('tm_thread_runs_func_with_own_event', tm_thread)
+
+    def collector_wired():
+        f = find_def(s_tree, 'FileSearcher._run_mp')
+        asg = [n for n in ast.walk(f) if isinstance(n, ast.Assign)
+               and U(n.targets[0]) == 'results_thread']
+        a = one(asg, "_run_mp: results_thread assignment", f)
+        c = a.value
+        need(isinstance(c, ast.Call) and U(c.func) == 'ThreadManager' and
+             len(c.args) == 3 and not c.keywords,
+             f"_run_mp: results_thread is not ThreadManager(name, func, "
+             f"args): {U(a)}", a)
+        need(U(c.args[1]) == 'self._get_results',
+             f"_run_mp: the results thread does not run self._get_results: "
+             f"{U(c.args[1])}", a)
+        need(isinstance(c.args[2], ast.List), "_run_mp: thread args not a "
+             "list", a)
+        given = [U(x) for x in c.args[2].elts]
+        g = find_def(s_tree, 'FileSearcher._get_results')
+        params = [x.arg for x in g.args.args]
+        need(params == ['event'] + given,
+             f"_get_results{tuple(params)} is not called with (event, "
+             f"{', '.join(given)})", a)
+        q = [n for n in ast.walk(f) if isinstance(n, ast.Assign)
+             and U(n.targets[0]) == 'results_queue']
+        qa = one(q, "_run_mp: results_queue assignment", f)
+        need(U(qa.value) == 'mgr.Queue(RESULTS_QUEUE_SIZE)',
+             f"_run_mp: results_queue is not mgr.Queue(RESULTS_QUEUE_SIZE): "
+             f"{U(qa)}", qa)
+        p = one([n for n in ast.walk(f) if isinstance(n, ast.Call)
+                 and U(n.func) == 'self._purge_results'], "_run_mp: purge",
+                f)
+        need([U(x) for x in p.args[:2]] == given,
+             "_run_mp: the purge does not work on the collector's "
+             "collection and queue", p)
+        return (f"(* {U(a)}; {U(qa)} *)\n"
+                "Definition run_mp_collector_wired : bool := true.\n",
+                {'stmt': U(a)})
+    out.item('run_mp_collector_wired', collector_wired)
+
+    # ------------------------------------------ SearchTaskResultsManager
+    def rm_init():
+        return find_def(t_tree, 'SearchTaskResultsManager.__init__')
+
+    def rm_conflict():
+        f = rm_init()
+        ifs = [n for n in strip(f.body) if isinstance(n, ast.If)]
+        i = one(ifs, "SearchTaskResultsManager.__init__: the `if`", f)
+        b = strip(i.body)
+        need(len(b) == 1 and isinstance(b[0], ast.Raise) and not i.orelse,
+             "SearchTaskResultsManager.__init__: the `if` does not just "
+             "raise", i)
+        tr = Tr(subst={
+            'results_queue is not None': ('has_queue', 'bool',
+                                          ['has_queue']),
+            'results_collection is not None': ('has_collection', 'bool',
+                                               ['has_collection'])})
+        t, ty = tr.expr(i.test)
+        need(ty == 'bool', "conflict test not boolean", i)
+        return (f"(* if {U(i.test)}: raise SearchTaskError *)\n"
+                f"Definition rm_conflict_test (has_queue has_collection : "
+                f"bool) : bool := {t}.\n", {'test': U(i.test)})
+    out.item('rm_conflict_test', rm_conflict)
+
+    def rm_fields():
+        f = rm_init()
+        cls = find_def(t_tree, 'SearchTaskResultsManager')
+        for nm in ('results_store', 'results_queue', 'results_collection'):
+            a = [n for n in strip(f.body) if isinstance(n, ast.Assign)
+                 and U(n.targets[0]) == f'self._{nm}']
+            x = one(a, f"SearchTaskResultsManager: self._{nm} assignment", f)
+            need(U(x.value) == nm, f"self._{nm} is not the argument: "
+                 f"{U(x)}", x)
+            g = one([n for n in cls.body if isinstance(n, ast.FunctionDef)
+                     and n.name == nm], f"property {nm}", cls)
+            need(any(U(d) == 'property' for d in g.decorator_list),
+                 f"{nm} is not a property", g)
+            r = one(strip(g.body), f"property {nm} body", g)
+            need(isinstance(r, ast.Return) and U(r.value) == f'self._{nm}',
+                 f"property {nm} does not return self._{nm}", r)
+        return ("(* SearchTaskResultsManager: results_store / results_queue "
+                "/ results_collection return the constructor arguments *)\n"
+                "Definition rm_properties_are_arguments : bool := true.\n",
+                {})
+    out.item('rm_properties_are_arguments', rm_fields)
+
+    def manager_mode(qual, dname):
+        def go():
+            f = find_def(s_tree, qual)
+            cs = [n for n in ast.walk(f) if isinstance(n, ast.Call)
+                  and U(n.func) == 'SearchTaskResultsManager']
+            c = one(cs, f"{qual}: SearchTaskResultsManager(..)", f)
+            need(len(c.args) == 1 and U(c.args[0]) == 'results_store',
+                 f"{qual}: first argument is not results_store", c)
+            kw = {k.arg: U(k.value) for k in c.keywords}
+            need(set(kw) <= {'results_queue', 'results_collection'},
+                 f"{qual}: unexpected keywords {sorted(kw)}", c)
+            for k, v in kw.items():
+                need(v == k, f"{qual}: {k}={v}", c)
+            hq = 'true' if 'results_queue' in kw else 'false'
+            hc = 'true' if 'results_collection' in kw else 'false'
+            return (f"(* {qual}: {U(c)} *)\n"
+                    f"Definition {dname} : bool * bool := ({hq}, {hc}).\n",
+                    {'call': U(c)})
+        return go
+    out.item('run_mp_manager_mode',
+             manager_mode('FileSearcher._run_mp', 'run_mp_manager_mode'))
+    out.item('run_single_manager_mode',
+             manager_mode('FileSearcher._run_single',
+                          'run_single_manager_mode'))
+
     text = ("(* GENERATED from the repository working tree by "
             "translator/plugins/pipeline.py - do not edit *)\n"
             "From Coq Require Import ZArith Bool.\n"
